@@ -90,6 +90,16 @@ def detect(ids):
             if diag:
                 print("      ", diag[:230])
             rows.append((sid, own, verdict, ",".join(fired), diag, ",".join(errs), meta.get("title", "")))
+    if sys.argv[2:] and os.environ.get("SEED_MERGE") == "1" and (root / "RESULTS.md").exists():
+        # re-measured rows replace the rows of the same seeds in the table (after a change that concerns a few seeds only)
+        new = {}
+        for r in rows:
+            sid, own, verdict, fired, diag = r[:5]
+            errs, title = (r[5] if len(r) > 5 else ""), (r[6] if len(r) > 6 else "")
+            new[sid] = f"| {sid} | {own} | {verdict} | {fired or '-'} | {errs or '-'} | {title.replace('|', '/')} | `{diag[:200].replace('|', '/')}` |"
+        lines = (root / "RESULTS.md").read_text().splitlines()
+        lines = [new.get(l.split("|")[1].strip(), l) if l.startswith("| ") and l.count("|") > 6 else l for l in lines]
+        (root / "RESULTS.md").write_text("\n".join(lines) + "\n")
     if not sys.argv[2:]:
         with open(root / "RESULTS.md", "w") as f:
             f.write(f"# Seeded defects vs. the registered checks ({os.environ.get('ST_TIER', 'quick')} tier)\n\nGenerated by `tools/seeded.py detect`. One row per confirmed seed in this directory.\n\n| seed | property | verdict | checks that report it | analysis errors | what the change is | first diagnosis line |\n|---|---|---|---|---|---|---|\n")
